@@ -1,6 +1,7 @@
 mod codec;
 mod interp;
 mod ir;
+mod pl;
 mod record;
 
 use ir::{Program, Steps};
